@@ -313,4 +313,17 @@ MUTANTS = [
    (CPYX, """            (abs(D[s,t] - D[k,t]) < eps and abs(D[k,l] - D[s,l]) < eps) or
             (abs(D[s,t] - D[s,l]) < eps and abs(D[k,l] - D[k,t]) < eps))""", """            (abs(D[s,t] - D[k,t]) < eps or abs(D[s,t] - D[s,l]) < eps) and
             (abs(D[k,l] - D[s,l]) < eps or abs(D[k,l] - D[k,t]) < eps))""")]},
+ {"name": "c06_region_indices_in_place", "property": "C06", "edits": [
+   ("src/pyunicorn/core/geo_grid.py", "remapped_region = np.array(region).reshape(len(region)//2, 2)", "remapped_region = region.reshape(len(region)//2, 2)")]},
+ {"name": "c06_rescale_in_place", "property": "C06", "edits": [
+   (DT, """        if var_type not in ('float64', 'float32'):
+            array = array.astype('float64')
+""", "")]},
+ {"name": "c06_zero_pad_writes_back", "property": "C06", "edits": [
+   (DT, """        (n_time, n_nodes) = data.shape
+
+        #  Get the power of n""", """        (n_time, n_nodes) = data.shape
+        data -= data.mean(axis=0)
+
+        #  Get the power of n""")]},
 ]
